@@ -1,10 +1,12 @@
 """clangrefs - which declaration does clang bind every name to (second witness of C08, reference of C35).
 
 refs(path, lang) runs `clang-14 -fsyntax-only -Xclang -ast-dump=json` on a source file and returns
-    {"ok": bool, "err": first diagnostics, "refs": {(line, col): set((dline, dcol))}, "decls": {(line, col): kind}}
+    {"ok": bool, "err": first diagnostics of a rejected file, "diag": warnings printed for an accepted file, "refs": {(line, col): set((dline, dcol))}, "decls": {(line, col): kind}}
       refs   for every DeclRefExpr / MemberExpr: position of the NAME token (the last token of the expression: for
              `N::x`, `this->x` that is `x`)  ->  position(s) of the name in the declaration clang resolved it to
       decls  position of the name of every VarDecl / ParmVarDecl / FieldDecl / FunctionDecl / CXXMethodDecl
+    and "names": {(line, col): spelling} for every position in refs and decls (main file only: entries of other files
+    are dropped), "ref_kinds": {(line, col): kind of the declaration referred to}.
 Only a change of notation: clang prints a location's line / file only when it differs from the previously printed
 location, so the tree is walked in print order to make the positions absolute; nothing is compared or decided here.
 
@@ -29,8 +31,9 @@ def clang_cmd(lang):
 
 
 class _Walker:
-    def __init__(self, src_lines):
+    def __init__(self, src_lines, main=None):
         self.src = src_lines
+        self.main_given = main is not None
         self.lams = []         # ids of the enclosing LambdaExpr nodes (inside a capture initialiser: without that lambda)
         self.body_off = {}     # LambdaExpr id -> file offset of the `{` of its body
         self.initcaps = {}     # LambdaExpr id -> [(name, (line, col))]
@@ -40,6 +43,9 @@ class _Walker:
         self.decl_kind = {}    # (line, col) -> kind
         self.prev = {}         # decl id -> id of the previous declaration of the same entity
         self.refs = []         # (line, col, decl id)
+        self.names = {}        # (line, col) -> spelling of the name token
+        self.ref_kinds = {}    # (line, col) -> kind of the referenced declaration
+        self.main = main       # name of the main file as clang prints it (default: the first file name printed)
 
     def loc(self, d):
         """Make a bare source location absolute (print-order state), returns (line, col, file) or None."""
@@ -55,6 +61,8 @@ class _Walker:
             return None
         if "file" in d:
             self.file = d["file"]
+            if self.main is None and not self.main_given:
+                self.main = self.file
         if "line" in d:
             self.line = d["line"]
         return (self.line, d.get("col", 0), self.file)
@@ -102,9 +110,11 @@ class _Walker:
             if m:
                 self.initcaps.setdefault(self.lams[-1], []).append((m.group(1), (here[0], here[1])))
                 self.decl_kind[(here[0], here[1])] = "InitCapture"
-        if kind in DECL_KINDS and here and "id" in n and not n.get("isImplicit"):
+                self.names[(here[0], here[1])] = m.group(1)
+        if kind in DECL_KINDS and here and "id" in n and not n.get("isImplicit") and here[2] == self.main:
             self.decl_pos[n["id"]] = (here[0], here[1])
             self.decl_kind[(here[0], here[1])] = kind
+            self.names[(here[0], here[1])] = n.get("name", "")
             if "previousDecl" in n:
                 self.prev[n["id"]] = n["previousDecl"]
         if kind in REF_KINDS and end:
@@ -112,7 +122,10 @@ class _Walker:
                 rid = (n.get("referencedDecl") or {}).get("id")
             else:
                 rid = n.get("referencedMemberDecl")
-            if rid:
+            if rid and end[2] == self.main:
+                rd = n.get("referencedDecl") or {}
+                self.names[(end[0], end[1])] = rd.get("name") or n.get("name") or ""
+                self.ref_kinds[(end[0], end[1])] = rd.get("kind") or ("FieldDecl" if kind == "MemberExpr" else "")
                 self.refs.append((end[0], end[1], rid, tuple(self.lams), (n.get("referencedDecl") or {}).get("name")))
 
     def other(self, d):
@@ -132,9 +145,9 @@ class _Walker:
                         self.other(c)
 
 
-def parse(text, src_lines=()):
+def parse(text, src_lines=(), main=None):
     tu = json.loads(text)
-    w = _Walker(list(src_lines))
+    w = _Walker(list(src_lines), main)
     w.node(tu)
     refs = {}
     for line, col, rid, lams, name in w.refs:
@@ -151,23 +164,24 @@ def parse(text, src_lines=()):
                     pos = hit[0]
                     break
         refs.setdefault((line, col), set()).add(pos if pos else (-1, -1))
-    return {"refs": refs, "decls": w.decl_kind}
+    return {"refs": refs, "decls": w.decl_kind, "names": w.names, "ref_kinds": w.ref_kinds}
 
 
 def refs(path, lang="c++", timeout=300, cwd=None):
-    cmd = clang_cmd(lang) + ["-fsyntax-only", "-w", "-Xclang", "-ast-dump=json", path]
+    cmd = clang_cmd(lang) + ["-fsyntax-only", "-fno-color-diagnostics", "-Xclang", "-ast-dump=json", path]
     try:
         r = subprocess.run(cmd, stdout=subprocess.PIPE, stderr=subprocess.PIPE, timeout=timeout, cwd=cwd)
     except subprocess.TimeoutExpired:
-        return {"ok": False, "err": "timeout", "refs": {}, "decls": {}}
+        return {"ok": False, "err": "timeout", "diag": "", "refs": {}, "decls": {}, "names": {}, "ref_kinds": {}}
     err = r.stderr.decode("utf-8", "replace")
     if r.returncode != 0:
-        return {"ok": False, "err": err[:2000], "refs": {}, "decls": {}}
+        return {"ok": False, "err": err[:2000], "diag": "", "refs": {}, "decls": {}, "names": {}, "ref_kinds": {}}
     with open(path if cwd is None else os.path.join(cwd, path), encoding="utf-8", errors="replace") as f:
         src = f.read().split("\n")
-    res = parse(r.stdout.decode("utf-8", "replace"), src)
+    res = parse(r.stdout.decode("utf-8", "replace"), src, path)
     res["ok"] = True
     res["err"] = ""
+    res["diag"] = err
     return res
 
 
